@@ -495,7 +495,7 @@ fn c17_headn_n2() {
     headn::<2>();
 }
 
-// @verif prop=C17 tier=thorough shape="3 stored ranges with free u64 bounds (invariant assumed); limit free u64; probe height free u64" funcs="BlockRanges::headn,BlockRangeExt::headn,BlockRanges::insert_relaxed"
+// @verif prop=C17 tier=quick shape="3 stored ranges with free u64 bounds (invariant assumed); limit free u64; probe height free u64" funcs="BlockRanges::headn,BlockRangeExt::headn,BlockRanges::insert_relaxed"
 #[kani::proof]
 #[kani::unwind(8)]
 #[kani::solver(minisat)]
@@ -527,7 +527,7 @@ fn c17_tailn_n2() {
     tailn::<2>();
 }
 
-// @verif prop=C17 tier=thorough shape="3 stored ranges with free u64 bounds (invariant assumed); limit free u64; probe height free u64" funcs="BlockRanges::tailn,BlockRangeExt::tailn,BlockRanges::insert_relaxed"
+// @verif prop=C17 tier=quick shape="3 stored ranges with free u64 bounds (invariant assumed); limit free u64; probe height free u64" funcs="BlockRanges::tailn,BlockRangeExt::tailn,BlockRanges::insert_relaxed"
 #[kani::proof]
 #[kani::unwind(8)]
 #[kani::solver(minisat)]
